@@ -109,7 +109,16 @@ pub fn lex(src: &str, regs: &Regs) -> Result<Vec<Tok>, String> {
                 j += 1;
             }
             if j == i + 1 {
-                return Err(format!("control symbol at {i} not in the alphabet"));
+                // control symbol: only `\<non-ASCII character>` is in the alphabet (an undefined single-character name)
+                match cs.get(j) {
+                    Some(c) if !c.is_ascii() => {
+                        out.push(Tok::Cs(Some(*c)));
+                        i = j + 1;
+                        skip_blanks = false;
+                        continue;
+                    }
+                    _ => return Err(format!("control symbol at {i} not in the alphabet")),
+                }
             }
             let name: String = cs[i + 1..j].iter().collect();
             i = j;
@@ -160,11 +169,36 @@ pub fn lex(src: &str, regs: &Regs) -> Result<Vec<Tok>, String> {
             }
             continue;
         }
+        if c == '\n' || c == '%' {
+            // end of line (§348): a space token in state M, nothing in state S; a comment ends the line
+            // without one. The next line starts in state N (blanks skipped); an empty line is not in the alphabet.
+            if c == '%' {
+                while i < cs.len() && cs[i] != '\n' {
+                    i += 1;
+                }
+                if i == cs.len() {
+                    return Err("comment without an end of line".into());
+                }
+                i += 1;
+            } else if !skip_blanks {
+                out.push(Tok::Space);
+            }
+            while i < cs.len() && cs[i] == ' ' {
+                i += 1;
+            }
+            if i < cs.len() && cs[i] == '\n' {
+                return Err("empty line (\\par) is not in the alphabet".into());
+            }
+            skip_blanks = true;
+            continue;
+        }
         skip_blanks = false;
         if c.is_ascii_alphabetic() {
             out.push(Tok::Letter(c));
         } else if c.is_ascii_digit() || "+-.,'\"`=<>:;!?()[]*/@|".contains(c) {
             out.push(Tok::Other(c));
+        } else if !c.is_ascii() {
+            out.push(Tok::Other(c)); // category 12 by default
         } else {
             return Err(format!("character {c:?} is not in the alphabet"));
         }
